@@ -14,6 +14,28 @@ NOTE = ("Trusted: Lean 4.33 kernel; axioms of every listed theorem ⊆ {propext,
         "object identity and file I/O are modelled away (exact rationals on a dyadic grid, explicit iteration orders).")
 
 CLAIMS = {
+    "C16": dict(text="Proved for the persistence model (write/read as relabelling between object references and ID labels, first match on load): "
+                     "export never fails (C16_export_total); with unique IDs per kind and in-range references, import(export(x)) = x for the whole model "
+                     "and state (C16_import_export), so the loaded project re-simulates identically (C16_resimulate); whatever loads re-exports to the same "
+                     "file, with no hypothesis (C16_reexport), and all its references resolve inside the restored project (C16_refs_resolve); uniqueness is "
+                     "necessary (machine-checked counterexample). The model's export/import are executed against every real file of the stream (EXP/IMP). "
+                     "JSON text, file I/O, float formatting and the constructor coercions are glue covered by the stream only (write-read-write equality, "
+                     "reference identity, re-simulation, constructor-parameter inspection) — partial by nature.",
+                design="6 C16", technique="Lean 4 round-trip proof on a relabelling model of save/load + execution of that model against the real JSON files"),
+    "C17": dict(text="Proved for the model: the structure after the `finally` block equals the original — every task's and workplace's dependency lists, "
+                     "element for element, and no helper task left — for every model with in-range links and both settings of the due-time option "
+                     "(C17_restored, C17_restored_eq); the block depends on the static structure only, which is why an exception at any step of the inner run "
+                     "cannot prevent it (validated on the real code by injecting an exception at observer calls). Logs stay aligned (C17_aligned); in "
+                     "the reversed logs of a run every WORKING index of an FS predecessor is below every WORKING index of its successor "
+                     "(C17_reversed_order; link read from the predecessor's successor list, or from the successor's predecessor list under EdgeSym). "
+                     "'A later forward simulate gives the same result' follows from C09_resim.",
+                design="6 C17", technique="Lean 4 proof (reverse/append/filter algebra on the dependency lists; C01 + C08 on the reversed graph) + backward histories with exception injection on the real code"),
+    "C18": dict(text="Proved for the model, for every list of indices (0, duplicates, already present, beyond the end) and any sequence of calls: "
+                     "remove/insert/reverse preserve alignment of all 17 logs with project.time (C18_remove_aligned, C18_insert_aligned, C18_sequence), "
+                     "every log changes by the same number of entries (C18_*_amount), inserted entries are zero-cost, no-work copies of their predecessor "
+                     "(C18_inserted_values, C18_inserted_states) and inserting into an absence-free result then removing is the identity on the whole "
+                     "state (C18_insert_remove). 'Complete without error' is by totality of the model plus the real-code stream.",
+                design="6 C18", technique="Lean 4 proof (list insert/erase algebra with growing guards) + remove/insert histories on the real code mirrored in the model"),
     "C06": dict(text="Proved for the model: at every `updated` state no task is NONE with its start gate open and no task is WORKING with no work left and "
                      "its finish gate open (C06_ready_run, C06_finish_run, C06_finish_next); after check_state(WORKING) no component-free automatic task is "
                      "READY, at every recorded step (C06_auto_run); idle-worker clause for tasks without facility: a worker still FREE and unassigned after "
